@@ -63,6 +63,29 @@ func init() {
 			for i := 0; i < tierN(tier, 40, 400); i++ {
 				pkg := r.Pick2("flate", "flate", "gzip", "zlib")
 				s, _, how := genContainerStream(r, pkg, "quick")
+				if pkg == "gzip" && i%2 == 1 {
+					// several members read in the default (multistream) mode, the source failing at and around every
+					// member boundary: between two members a source error is an error, not the end of the file
+					var bounds []int
+					s, how = nil, "multi"
+					for m := 0; m < 2+r.Intn(2); m++ {
+						ms, _, h := genContainerStream(r, "gzip", "quick")
+						if len(ms) > 3000 {
+							ms, _, h = genContainerStream(r, "gzip", "quick")
+						}
+						s = append(s, ms...)
+						bounds = append(bounds, len(s))
+						how += "+" + h
+					}
+					for _, b := range bounds[:len(bounds)-1] {
+						for _, kk := range []int{b - 8, b - 1, b, b + 1, b + 3, b + 10} {
+							if kk >= 0 && kk <= len(s) {
+								cs = append(cs, Case{Prop: "C15", Pkg: pkg, Stream: s, K: kk, Ints: []int{1}, EOFWith: r.Bool(), Kind: r.Pick2("A", "B", "W"), Reads: readPattern(r), Chunks: chunkPattern(r), Ctor: r.Pick2("new", "reset"), Note: how, Src: r.Pick2("plain", "bufio:4096", "bufio:100")})
+							}
+						}
+					}
+					continue
+				}
 				step := 1
 				if len(s) > 200 {
 					step = len(s) / 100
@@ -327,7 +350,7 @@ func checkC15(c *Case, st *Stats) *Violation {
 		c.Sig = fmt.Sprintf("%s|ctor|%v|%s", c.Pkg, c.EOFWith, c.Kind)
 		return nil
 	}
-	if c.Pkg == "gzip" {
+	if c.Pkg == "gzip" && !(len(c.Ints) > 0 && c.Ints[0] == 1) {
 		rd.(interface{ Multistream(bool) }).Multistream(false)
 	}
 	run := runReader(rd, c.Reads, 1<<23)
